@@ -1,5 +1,11 @@
 (* Proofs about the TaskGroup LTS (model/TaskGroup.v): C09 and C10. *)
-From AV Require Import Base TaskGroup.
+From AV Require Import Base Gen_curio TaskGroup.
+
+(* the two probed facts (gen/Gen_curio.v, regenerated from /repo on every run) *)
+Lemma probe_recancels : join_recancels_late_members = true.
+Proof. reflexivity. Qed.
+Lemma probe_refused : add_refused_after_join = true.
+Proof. reflexivity. Qed.
 
 (* ---------- association list ---------- *)
 Lemma get_set_same t m l : get t (set t m l) = Some m.
@@ -36,13 +42,21 @@ Definition AllFin (g : tg) : Prop := forall t m, get t (members g) = Some m -> i
 Definition Tracked (g : tg) : Prop :=
   forall t m, get t (members g) = Some m -> is_fin m = false -> In t (pending g) \/ In t (daemons g).
 (* a callback in the ready queue belongs to a finished task *)
+Definition cb_target (c : cb) : N := match c with OnDone t | Pop t => t end.
 Definition QueueFin (g : tg) : Prop :=
-  forall c, In (HCb c) (queue g) -> finished g (match c with OnDone t | Pop t => t end) = true.
+  forall c, In (HCb c) (queue g) -> finished g (cb_target c) = true.
+(* the callbacks registered on a task concern that task *)
+Definition CbsOwn (g : tg) : Prop :=
+  forall t m c, get t (members g) = Some m -> In c (m_cbs m) -> cb_target c = t.
 (* once join has set `joined`, every member has finished *)
 Definition Closed (g : tg) : Prop := joined g = true -> AllFin g.
-Definition EndedJoined (g : tg) : Prop := forall c e, pc g = JEnded c e true -> joined g = true.
+(* how the joining task can have ended: JEnded cancelled entered joined_set *)
+Definition EndedShape (g : tg) : Prop :=
+  forall c e j, pc g = JEnded c e j ->
+    (j = true -> joined g = true) /\ (c = false -> j = true) /\ (j = true -> e = true).
 
-Definition Inv (g : tg) : Prop := Tracked g /\ QueueFin g /\ Closed g /\ EndedJoined g.
+Definition Core (g : tg) : Prop := Tracked g /\ QueueFin g /\ CbsOwn g.
+Definition Good (g : tg) : Prop := Core g /\ Closed g /\ EndedShape g.
 
 Lemma finished_get g t : finished g t = true <-> exists m, get t (members g) = Some m /\ is_fin m = true.
 Proof.
@@ -52,18 +66,41 @@ Proof.
   - split; [discriminate|intros (m' & E & _); discriminate].
 Qed.
 
-(* only the joiner-related fields change: the core invariants are untouched *)
-Definition same_core (g g' : tg) : Prop :=
-  members g' = members g /\ pending g' = pending g /\ daemons g' = daemons g /\ queue g' = queue g.
+Lemma finished_status g g' t : status g' t = status g t -> finished g' t = finished g t.
+Proof. unfold finished. now intros ->. Qed.
 
-Lemma upd_joiner_core g p en gr wk mc je unf jd cm cs : same_core g (upd_joiner g p en gr wk mc je unf jd cm cs).
-Proof. repeat split. Qed.
+(* ---------- updates that leave members, pending and daemons alone ---------- *)
+Lemma core_upd g g' : Core g -> members g' = members g -> pending g' = pending g -> daemons g' = daemons g ->
+  (forall h, In h (queue g') -> In h (queue g) \/ h = HJoiner) -> Core g'.
+Proof.
+  intros (Ht & Hq & Hc) Hm Hp Hd Hqu. split; [|split].
+  - intros t m. rewrite Hm, Hp, Hd. apply Ht.
+  - intros c Hin. unfold finished, status. rewrite Hm. destruct (Hqu _ Hin) as [H|H]; [apply (Hq c H)|discriminate].
+  - intros t m c. rewrite Hm. apply Hc.
+Qed.
 
-Lemma tracked_core g g' : members g' = members g -> pending g' = pending g -> daemons g' = daemons g ->
-  Tracked g -> Tracked g'.
-Proof. intros Hm Hp Hd H t m. rewrite Hm, Hp, Hd. apply H. Qed.
-Lemma queuefin_core g g' : members g' = members g -> queue g' = queue g -> QueueFin g -> QueueFin g'.
-Proof. intros Hm Hq H c. unfold finished, status. rewrite Hm, Hq. apply H. Qed.
+Lemma good_upd g g' : Good g -> members g' = members g -> pending g' = pending g -> daemons g' = daemons g ->
+  (forall h, In h (queue g') -> In h (queue g) \/ h = HJoiner) -> joined g' = joined g ->
+  (pc g' = pc g \/ forall c e j, pc g' = JEnded c e j -> c = true /\ j = false) -> Good g'.
+Proof.
+  intros (Hc & Hcl & He) Hm Hp Hd Hq Hj Hpc. split; [eapply core_upd; eauto|split].
+  - unfold Closed, AllFin. rewrite Hj, Hm. exact Hcl.
+  - intros c e j E. rewrite Hj. destruct Hpc as [Hpc|Hpc].
+    + rewrite Hpc in E. apply (He _ _ _ E).
+    + destruct (Hpc _ _ _ E) as [-> ->]. repeat split; discriminate.
+Qed.
+
+Ltac queue_le :=
+  let h := fresh "h" in let Hh := fresh "Hh" in
+  intros h Hh; cbn in Hh;
+  first [ now left
+        | apply in_app_or in Hh as [Hh|[<-|[]]]; [now left|now right]
+        | (left; now apply in_cons) ].
+Ltac pc_ok :=
+  first [ left; reflexivity
+        | right; let c := fresh in let e := fresh in let j := fresh in let E := fresh in
+          intros c e j E; cbn in E; first [discriminate | injection E as <- <- <-; split; reflexivity] ].
+Ltac gupd H := apply (good_upd _ _ H); [reflexivity|reflexivity|reflexivity|queue_le|reflexivity|pc_ok].
 
 (* ---------- primitive operations ---------- *)
 Lemma sem_release_core g :
@@ -75,106 +112,153 @@ Proof.
   all: try (intros h Hh; apply in_app_or in Hh as [Hh|[<-|[]]]; auto).
 Qed.
 
-Lemma on_done_inv g t : finished g t = true -> Tracked g -> QueueFin g ->
-  Tracked (on_done g t) /\ QueueFin (on_done g t) /\ members (on_done g t) = members g /\
-  joined (on_done g t) = joined g /\ pc (on_done g t) = pc g.
+Lemma on_done_facts g t :
+  members (on_done g t) = members g /\ joined (on_done g t) = joined g /\ pc (on_done g t) = pc g /\
+  (forall h, In h (queue (on_done g t)) -> In h (queue g) \/ h = HJoiner) /\
+  (forall x, In x (pending (on_done g t)) -> In x (pending g)) /\
+  (forall x, In x (daemons (on_done g t)) -> In x (daemons g)) /\
+  (forall x, x <> t -> In x (pending g) -> In x (pending (on_done g t))) /\
+  (forall x, x <> t -> In x (daemons g) -> In x (daemons (on_done g t))).
 Proof.
-  intros Hf Ht Hq. unfold on_done. destruct (get t (members g)) as [m|] eqn:Em; [|repeat split; auto].
-  apply finished_get in Hf as (m' & Em' & Hfin). rewrite Em in Em'. injection Em' as <-.
+  unfold on_done. destruct (get t (members g)) as [m|]; [|repeat split; auto].
   destruct (m_daemon m).
   - cbn. repeat split; auto.
-    + intros t' m' Hg Hn. cbn in Hg |- *. destruct (Ht t' m' Hg Hn) as [H|H]; [now left|right].
-      apply removeN_In. split; auto. intros ->. rewrite Em in Hg. injection Hg as <-. congruence.
+    + intros x Hx. now apply removeN_In in Hx.
+    + intros x Hne Hx. apply removeN_In. auto.
   - set (g1 := upd_group g (removeN t (pending g)) (daemons g) (doneq g ++ [t]) (semv g)).
-    destruct (sem_release_core g1) as (S1 & S2 & S3 & S4 & S5 & S6). repeat split.
-    + intros t' m' Hg Hn. rewrite S1 in Hg. rewrite S2, S3. cbn in *. destruct (Ht t' m' Hg Hn) as [H|H]; [left|now right].
-      apply removeN_In. split; auto. intros ->. rewrite Em in Hg. injection Hg as <-. congruence.
-    + intros c Hc. apply S6 in Hc as [Hc|Hc]; [|discriminate]. unfold finished, status. rewrite S1. apply (Hq c Hc).
-    + now rewrite S1.
-    + now rewrite S4.
-    + now rewrite S5.
+    destruct (sem_release_core g1) as (S1 & S2 & S3 & S4 & S5 & S6).
+    rewrite S1, S2, S3, S4, S5. cbn. repeat split; auto.
+    + intros x Hx. now apply removeN_In in Hx.
+    + intros x Hne Hx. apply removeN_In. auto.
 Qed.
 
-Lemma cancel_member_frame g t :
-  pending (cancel_member g t) = pending g /\ daemons (cancel_member g t) = daemons g /\
-  queue (cancel_member g t) = queue g /\ joined (cancel_member g t) = joined g /\ pc (cancel_member g t) = pc g /\
-  (forall t', finished (cancel_member g t) t' = finished g t') /\
-  (forall t' m', get t' (members (cancel_member g t)) = Some m' ->
-                 exists m, get t' (members g) = Some m /\ is_fin m' = is_fin m).
+Lemma on_done_good g t : finished g t = true -> Good g -> Good (on_done g t).
 Proof.
-  unfold cancel_member. destruct (get t (members g)) as [m|] eqn:Em; [|repeat split; auto; eauto].
-  destruct (m_status m) eqn:Es; try (repeat split; auto; eauto; fail). cbn. repeat split; auto.
-  - intros t'. unfold finished, status. cbn. destruct (N.eqb_spec t t') as [<-|Hne].
-    + rewrite get_set_same, Em. cbn. now rewrite Es.
-    + now rewrite get_set_other.
-  - intros t' m' Hg. destruct (N.eqb_spec t t') as [<-|Hne].
-    + rewrite get_set_same in Hg. injection Hg as <-. exists m. split; auto. unfold is_fin. cbn. now rewrite Es.
-    + rewrite get_set_other in Hg by auto. eauto.
+  intros Hf ((Ht & Hq & Hc) & Hcl & He).
+  destruct (on_done_facts g t) as (F1 & F2 & F3 & F4 & F5 & F6 & F7 & F8).
+  split; [split; [|split]|split].
+  - intros t' m'. rewrite F1. intros Hg Hn.
+    assert (t' <> t).
+    { intros ->. apply finished_get in Hf as (m0 & E0 & Hfin). rewrite Hg in E0. injection E0 as <-. congruence. }
+    destruct (Ht t' m' Hg Hn) as [H1|H1]; [left; now apply F7|right; now apply F8].
+  - intros c Hin. unfold finished, status. rewrite F1. destruct (F4 _ Hin) as [H1|H1]; [apply (Hq c H1)|discriminate].
+  - intros t' m' c. rewrite F1. apply Hc.
+  - unfold Closed, AllFin. rewrite F1, F2. exact Hcl.
+  - intros c e j. rewrite F2, F3. apply He.
 Qed.
 
-Lemma register_pop_frame g t :
-  pending (register_pop g t) = pending g /\ daemons (register_pop g t) = daemons g /\
-  joined (register_pop g t) = joined g /\ pc (register_pop g t) = pc g /\
-  (forall t', finished (register_pop g t) t' = finished g t') /\
-  (forall t' m', get t' (members (register_pop g t)) = Some m' ->
-                 exists m, get t' (members g) = Some m /\ is_fin m' = is_fin m) /\
-  (forall h, In h (queue (register_pop g t)) -> In h (queue g) \/ (h = HCb (Pop t) /\ finished g t = true)).
+(* ---------- operations on members that keep the frame ---------- *)
+Definition MemLe (t : N) (m m' : member) : Prop :=
+  m_daemon m' = m_daemon m /\
+  (m_status m' = m_status m \/ (m_status m = Run /\ m_status m' = RunC)) /\
+  (forall c, In c (m_cbs m') -> In c (m_cbs m) \/ c = Pop t).
+
+Lemma memle_refl t m : MemLe t m m.
+Proof. repeat split; auto. Qed.
+Lemma memle_fin t m m' : MemLe t m m' -> is_fin m' = is_fin m.
+Proof. intros (_ & [H|[H1 H2]] & _); unfold is_fin; [now rewrite H|now rewrite H1, H2]. Qed.
+Lemma memle_trans t a b c : MemLe t a b -> MemLe t b c -> MemLe t a c.
 Proof.
-  unfold register_pop. destruct (get t (members g)) as [m|] eqn:Em; [|repeat split; auto; eauto].
-  destruct (m_status m) eqn:Es.
-  1,2: cbn; repeat split; auto;
-    [ intros t'; unfold finished, status; cbn; destruct (N.eqb_spec t t') as [<-|Hne];
-      [rewrite get_set_same, Em; cbn; now rewrite Es | now rewrite get_set_other]
-    | intros t' m' Hg; destruct (N.eqb_spec t t') as [<-|Hne];
-      [rewrite get_set_same in Hg; injection Hg as <-; exists m; split; auto; unfold is_fin; cbn; now rewrite Es
-      | rewrite get_set_other in Hg by auto; eauto] ].
-  cbn. repeat split; auto; eauto. intros h Hh. apply in_app_or in Hh as [Hh|[<-|[]]]; auto.
-  right. split; auto. unfold finished, status. rewrite Em. cbn. now rewrite Es.
+  intros (A1 & A2 & A3) (B1 & B2 & B3). split; [congruence|split].
+  - destruct A2 as [A2|[A2 A2']], B2 as [B2|[B2 B2']]; try (left; congruence); try (right; split; congruence).
+  - intros x Hx. destruct (B3 _ Hx) as [H|H]; auto.
 Qed.
 
-(* a fold of operations that keep the frame keeps the invariants *)
 Definition Frame (g g' : tg) : Prop :=
   pending g' = pending g /\ daemons g' = daemons g /\ joined g' = joined g /\ pc g' = pc g /\
-  (forall t', finished g' t' = finished g t') /\
-  (forall t' m', get t' (members g') = Some m' -> exists m, get t' (members g) = Some m /\ is_fin m' = is_fin m) /\
+  (forall t' m', get t' (members g') = Some m' -> exists m, get t' (members g) = Some m /\ MemLe t' m m') /\
+  (forall t' m, get t' (members g) = Some m -> exists m', get t' (members g') = Some m' /\ MemLe t' m m') /\
   (forall h, In h (queue g') -> In h (queue g) \/ exists t, h = HCb (Pop t) /\ finished g t = true).
 
 Lemma frame_refl g : Frame g g.
-Proof. repeat split; auto; eauto. Qed.
+Proof. repeat split; auto; intros; eexists; split; eauto using memle_refl. Qed.
+
+Lemma frame_finished g g' : Frame g g' -> forall t, finished g' t = finished g t.
+Proof.
+  intros (_ & _ & _ & _ & A5 & A6 & _) t. unfold finished, status.
+  destruct (get t (members g')) as [m'|] eqn:E'.
+  - destruct (A5 _ _ E') as (m & E & Hle). rewrite E. cbn. apply memle_fin in Hle. unfold is_fin in Hle.
+    destruct (m_status m'), (m_status m); auto; discriminate.
+  - destruct (get t (members g)) as [m|] eqn:E; auto. destruct (A6 _ _ E) as (m' & E2 & _). congruence.
+Qed.
+
 Lemma frame_trans a b c : Frame a b -> Frame b c -> Frame a c.
 Proof.
-  intros (A1 & A2 & A3 & A4 & A5 & A6 & A7) (B1 & B2 & B3 & B4 & B5 & B6 & B7).
+  intros FA FB. pose proof (frame_finished _ _ FA) as Hfa.
+  destruct FA as (A1 & A2 & A3 & A4 & A5 & A6 & A7), FB as (B1 & B2 & B3 & B4 & B5 & B6 & B7).
   split; [congruence|]. split; [congruence|]. split; [congruence|]. split; [congruence|].
   split; [|split].
-  - intros t'. now rewrite B5, A5.
-  - intros t' m' Hg. destruct (B6 _ _ Hg) as (m1 & Hg1 & E1). destruct (A6 _ _ Hg1) as (m2 & Hg2 & E2).
-    exists m2. split; auto. congruence.
-  - intros h Hh. destruct (B7 _ Hh) as [Hh'|(t & -> & Hf)]; [now apply A7|]. right. exists t. split; auto. now rewrite <- A5.
+  - intros t' m' Hg. destruct (B5 _ _ Hg) as (m1 & Hg1 & E1). destruct (A5 _ _ Hg1) as (m2 & Hg2 & E2).
+    exists m2. split; auto. eapply memle_trans; eauto.
+  - intros t' m Hg. destruct (A6 _ _ Hg) as (m1 & Hg1 & E1). destruct (B6 _ _ Hg1) as (m2 & Hg2 & E2).
+    exists m2. split; auto. eapply memle_trans; eauto.
+  - intros h Hh. destruct (B7 _ Hh) as [Hh'|(t & -> & Hf)]; [now apply A7|]. right. exists t. split; auto. now rewrite <- Hfa.
+Qed.
+
+Lemma set_frame g t m m' : get t (members g) = Some m -> MemLe t m m' ->
+  Frame g (upd_members g (set t m' (members g))).
+Proof.
+  intros Em Hle. split; [reflexivity|]. split; [reflexivity|]. split; [reflexivity|]. split; [reflexivity|].
+  split; [|split].
+  - intros t' m1 Hg. cbn in Hg. destruct (N.eqb_spec t t') as [<-|Hne].
+    + rewrite get_set_same in Hg. injection Hg as <-. eauto.
+    + rewrite get_set_other in Hg by auto. eauto using memle_refl.
+  - intros t' m1 Hg. cbn. destruct (N.eqb_spec t t') as [<-|Hne].
+    + rewrite get_set_same. rewrite Em in Hg. injection Hg as <-. eauto.
+    + rewrite get_set_other by auto. eauto using memle_refl.
+  - intros h Hh. now left.
+Qed.
+
+Lemma cancel_member_frame g t : Frame g (cancel_member g t).
+Proof.
+  unfold cancel_member. destruct (get t (members g)) as [m|] eqn:Em; [|apply frame_refl].
+  destruct (m_status m) eqn:Es; try apply frame_refl.
+  apply set_frame with m; auto. repeat split; cbn; auto.
+Qed.
+
+Lemma register_pop_frame g t : Frame g (register_pop g t).
+Proof.
+  unfold register_pop. destruct (get t (members g)) as [m|] eqn:Em; [|apply frame_refl].
+  destruct (m_status m) eqn:Es.
+  1,2: apply set_frame with m; auto; repeat split; cbn; auto;
+       intros c Hc; apply in_app_or in Hc as [Hc|[<-|[]]]; auto.
+  split; [reflexivity|]. split; [reflexivity|]. split; [reflexivity|]. split; [reflexivity|].
+  split; [|split]; try (intros; eexists; split; eauto using memle_refl).
+  intros h Hh. cbn in Hh. apply in_app_or in Hh as [Hh|[<-|[]]]; auto.
+  right. exists t. split; auto. unfold finished, status. rewrite Em. cbn. now rewrite Es.
+Qed.
+
+Lemma fold_frame (f : tg -> N -> tg) : (forall g t, Frame g (f g t)) -> forall l g, Frame g (fold_left f l g).
+Proof.
+  intros Hf. induction l as [|t l IH]; intros g; cbn; [apply frame_refl|].
+  eapply frame_trans; [apply Hf|apply IH].
 Qed.
 
 Lemma cancel_tasks_frame g ord : Frame g (cancel_tasks g ord).
 Proof.
-  unfold cancel_tasks.
-  assert (F1 : forall l g0, Frame g0 (fold_left cancel_member l g0)).
-  { induction l as [|t l IH]; intros g0; cbn; [apply frame_refl|].
-    eapply frame_trans; [|apply IH]. destruct (cancel_member_frame g0 t) as (A1 & A2 & A3 & A4 & A5 & A6 & A7).
-    repeat split; auto. intros h Hh. rewrite A3 in Hh. now left. }
-  assert (F2 : forall l g0, Frame g0 (fold_left register_pop l g0)).
-  { induction l as [|t l IH]; intros g0; cbn; [apply frame_refl|].
-    eapply frame_trans; [|apply IH]. destruct (register_pop_frame g0 t) as (A1 & A2 & A3 & A4 & A5 & A6 & A7).
-    repeat split; auto. intros h Hh. destruct (A7 _ Hh) as [H|[-> H]]; [now left|right; eauto]. }
-  eapply frame_trans; [apply F1|apply F2].
-Qed.
-
-Lemma frame_inv g g' : Frame g g' -> Tracked g -> QueueFin g -> Tracked g' /\ QueueFin g'.
-Proof.
-  intros (A1 & A2 & A3 & A4 & A5 & A6 & A7) Ht Hq. split.
-  - intros t m' Hg Hn. rewrite A1, A2. destruct (A6 _ _ Hg) as (m & Hg0 & E). apply (Ht t m Hg0). congruence.
-  - intros c Hc. rewrite A5. destruct (A7 _ Hc) as [H|(t & E & Hf)]; [now apply Hq|]. injection E as ->. exact Hf.
+  unfold cancel_tasks. eapply frame_trans; apply fold_frame; [apply cancel_member_frame|apply register_pop_frame].
 Qed.
 
 Lemma frame_allfin g g' : Frame g g' -> AllFin g -> AllFin g'.
-Proof. intros (_ & _ & _ & _ & _ & A6 & _) H t m' Hg. destruct (A6 _ _ Hg) as (m & Hg0 & E). rewrite E. eapply H; eauto. Qed.
+Proof.
+  intros (_ & _ & _ & _ & A5 & _) H t m' Hg. destruct (A5 _ _ Hg) as (m & Hg0 & E).
+  rewrite (memle_fin _ _ _ E). eapply H; eauto.
+Qed.
+
+Lemma frame_good g g' : Frame g g' -> Good g -> Good g'.
+Proof.
+  intros F ((Ht & Hq & Hc) & Hcl & He). pose proof (frame_finished _ _ F) as Hfin.
+  pose proof (frame_allfin _ _ F) as Hall.
+  destruct F as (A1 & A2 & A3 & A4 & A5 & A6 & A7).
+  split; [split; [|split]|split].
+  - intros t m' Hg Hn. rewrite A1, A2. destruct (A5 _ _ Hg) as (m & Hg0 & E). apply (Ht t m Hg0).
+    rewrite <- (memle_fin _ _ _ E). exact Hn.
+  - intros c Hin. rewrite Hfin. destruct (A7 _ Hin) as [H|(t & E & Hf)]; [now apply Hq|]. injection E as ->. exact Hf.
+  - intros t m' c Hg Hin. destruct (A5 _ _ Hg) as (m & Hg0 & (_ & _ & E)).
+    destruct (E _ Hin) as [H | ->]; [eapply Hc; eauto|reflexivity].
+  - intros Hj. rewrite A3 in Hj. auto.
+  - intros c e j. rewrite A3, A4. apply He.
+Qed.
 
 (* ---------- when nothing tracked is unfinished, everything has finished ---------- *)
 Lemma tracked_empty_allfin g : Tracked g ->
@@ -188,6 +272,9 @@ Proof.
   rewrite He in Hf. destruct Hf.
 Qed.
 
+Lemma tracked_nil_allfin g : Tracked g -> pending g ++ daemons g = [] -> AllFin g.
+Proof. intros Ht He. apply tracked_empty_allfin; auto. now rewrite He. Qed.
+
 Lemma ord_nil (set_ order : list N) :
   filter (fun t => memN t set_) order ++ filter (fun t => negb (memN t order)) set_ = [] -> set_ = [].
 Proof.
@@ -197,4 +284,345 @@ Proof.
     { apply filter_In. split; auto. cbn. now rewrite N.eqb_refl. }
     rewrite H1 in H. destruct H.
   - cbn in H2. rewrite E in H2. discriminate.
+Qed.
+
+(* ---------- the joining coroutine ---------- *)
+Lemma end_join_good g : Good g -> AllFin g -> Good (end_join g).
+Proof.
+  intros (Hc & Hcl & He) Hall. split; [|split].
+  - eapply core_upd; eauto.
+  - intros _. exact Hall.
+  - intros c e j E. cbn in E. injection E as <- <- <-. repeat split; auto.
+Qed.
+
+Lemma j_finally_good g order exc : Good g -> Good (j_finally g order exc).
+Proof.
+  intros Hg. unfold j_finally. cbv zeta.
+  set (g0 := upd_joiner g (pc g) true (granted g) (wake g) (must_cancel g) exc (unfinished g) (joined g)
+                        (completed g) (consumed g)).
+  assert (H0 : Good g0) by (gupd Hg).
+  destruct (filter (fun t => memN t (pending g ++ daemons g)) order ++
+            filter (fun t => negb (memN t order)) (pending g ++ daemons g)) as [|x ord] eqn:Eo.
+  - apply ord_nil in Eo. apply end_join_good; auto. apply tracked_nil_allfin; [apply H0|exact Eo].
+  - assert (H1 : Good (cancel_tasks g0 (x :: ord))) by (eapply frame_good; [apply cancel_tasks_frame|exact H0]).
+    gupd H1.
+Qed.
+
+Lemma j_loop_good order dq : forall g, Good g -> Good (j_loop dq g order).
+Proof.
+  induction dq as [|t rest IH]; intros g Hg; cbn [j_loop]; cbv zeta.
+  - destruct (negb match pending g with [] => true | _ :: _ => false end && (semv g =? 0)%nat); [gupd Hg|].
+    apply j_finally_good. destruct (negb match pending g with [] => true | _ :: _ => false end); [gupd Hg|exact Hg].
+  - cbn [negb andb]. destruct (semv g =? 0)%nat; [gupd Hg|].
+    match goal with |- Good (if ?b then _ else _) => destruct b end.
+    + apply j_finally_good. gupd Hg.
+    + apply IH. gupd Hg.
+Qed.
+
+Lemma join_entry_good g order : Good g -> Good (join_entry g order).
+Proof.
+  intros Hg. unfold join_entry. cbv zeta.
+  set (g0 := upd_joiner g (pc g) true (granted g) (wake g) (must_cancel g) false (unfinished g) (joined g)
+                        (completed g) (consumed g)).
+  assert (H0 : Good g0) by (gupd Hg).
+  destruct (pol g0); [apply j_loop_good|apply j_loop_good|apply j_loop_good|apply j_finally_good]; exact H0.
+Qed.
+
+Lemma joiner_step_good g order : Good g -> Good (joiner_step g order).
+Proof.
+  intros Hg. unfold joiner_step. rewrite probe_recancels. cbv beta iota zeta.
+  set (cancelled := must_cancel g || match wake g with Some true => true | _ => false end).
+  set (g0 := upd_joiner g (pc g) (entered g) (granted g) None false (jexc g) (unfinished g) (joined g)
+                        (completed g) (consumed g)).
+  assert (H0 : Good g0) by (gupd Hg).
+  destruct (pc g0) eqn:Epc.
+  - (* JNot *)
+    destruct cancelled; [gupd H0|]. destruct (mode g0); try (apply join_entry_good; exact H0).
+    match goal with |- Good (match ?o with [] => _ | _ => _ end) => destruct o as [|x ord] eqn:Eo end.
+    + apply join_entry_good; exact H0.
+    + assert (H1 : Good (cancel_tasks g0 (x :: ord))) by (eapply frame_good; [apply cancel_tasks_frame|exact H0]).
+      gupd H1.
+  - (* JNextDone *)
+    destruct cancelled.
+    + apply j_finally_good. destruct (granted g0); gupd H0.
+    + match goal with |- Good (match ?o with [] => _ | _ => _ end) => destruct o end.
+      * apply j_finally_good. gupd H0.
+      * apply j_loop_good. gupd H0.
+  - (* JCancelRem *)
+    destruct cancelled; [gupd H0|apply join_entry_good; exact H0].
+  - (* JCancelAll *)
+    destruct cancelled; [gupd H0|].
+    match goal with |- Good (match ?o with [] => _ | _ => _ end) => destruct o as [|x ord] eqn:Eo end.
+    + apply ord_nil in Eo. apply end_join_good; auto. apply tracked_empty_allfin; [apply H0|exact Eo].
+    + assert (H1 : Good (cancel_tasks g0 (x :: ord))) by (eapply frame_good; [apply cancel_tasks_frame|exact H0]).
+      gupd H1.
+  - exact H0.
+Qed.
+
+(* ---------- the other labels ---------- *)
+Lemma add_task_good g t d st : Good g -> Good (fst (add_task g t d st)).
+Proof.
+  intros Hg. unfold add_task. rewrite probe_refused. cbn [andb]. destruct (joined g) eqn:Ej; [exact Hg|].
+  destruct (get t (members g)) as [m0|] eqn:Em; [exact Hg|].
+  set (m := {| m_daemon := d; m_status := st; m_cbs := [] |}).
+  set (g1 := upd_members g (set t m (members g))).
+  (* g1: the new member is there, with no callback, not yet tracked *)
+  assert (Hg1m : forall t' m', get t' (members g1) = Some m' -> (t' = t /\ m' = m) \/ (t' <> t /\ get t' (members g) = Some m')).
+  { intros t' m' H. cbn in H. destruct (N.eqb_spec t t') as [<-|Hne].
+    - rewrite get_set_same in H. injection H as <-. now left.
+    - rewrite get_set_other in H by auto. right. split; auto. }
+  assert (Hfin1 : forall t', finished g t' = true -> finished g1 t' = true).
+  { intros t' Hf. unfold finished, status in *. cbn. destruct (N.eqb_spec t t') as [<-|Hne].
+    - rewrite Em in Hf. discriminate.
+    - now rewrite get_set_other. }
+  destruct Hg as ((Ht & Hq & Hc) & Hcl & He).
+  assert (Hq1 : QueueFin g1) by (intros c Hin; apply Hfin1, (Hq c Hin)).
+  assert (Hc1 : CbsOwn g1).
+  { intros t' m' c Hg' Hin. destruct (Hg1m _ _ Hg') as [[-> ->]|[_ Hg0]]; [destruct Hin|eapply Hc; eauto]. }
+  assert (Hcl1 : forall g', joined g' = joined g -> Closed g') by (intros g' E; unfold Closed; rewrite E, Ej; discriminate).
+  destruct st as [| |o].
+  3: { (* already finished: _on_done at once *)
+    cbn [fst].
+    assert (Hgood1 : Good g1).
+    { split; [split; [|split]|split]; auto.
+      intros t' m' Hg' Hn. destruct (Hg1m _ _ Hg') as [[-> ->]|[_ Hg0]]; [discriminate|apply (Ht _ _ Hg0 Hn)]. }
+    apply on_done_good; auto. unfold finished, status. cbn. now rewrite get_set_same. }
+  all: destruct d; cbn [fst].
+  all: split; [split; [|split]|split]; auto; try (intros c e j; apply He).
+  - intros t' m' Hg' Hn. cbn. destruct (Hg1m _ _ Hg') as [[-> ->]|[_ Hg0]].
+    + right. apply in_or_app. right. now left.
+    + destruct (Ht _ _ Hg0 Hn); [now left|right; apply in_or_app; now left].
+  - (* non-daemon, running: the OnDone callback is registered *)
+    intros t' m' Hg' Hn. cbn in Hg' |- *. destruct (N.eqb_spec t t') as [<-|Hne].
+    + left. apply in_or_app. right. now left.
+    + rewrite !get_set_other in Hg' by auto. destruct (Ht _ _ Hg' Hn); [left; apply in_or_app; now left|now right].
+  - intros c Hin. cbn in Hin. unfold finished, status. cbn.
+    pose proof (Hq c Hin) as Hf. unfold finished, status in Hf.
+    destruct (N.eqb_spec t (cb_target c)) as [E|Hne]; [rewrite <- E, Em in Hf; discriminate|].
+    now rewrite !get_set_other by auto.
+  - intros t' m' c Hg' Hin. cbn in Hg'. destruct (N.eqb_spec t t') as [<-|Hne].
+    + rewrite get_set_same in Hg'. injection Hg' as <-. cbn in Hin. destruct Hin as [<-|[]]. reflexivity.
+    + rewrite !get_set_other in Hg' by auto. eapply Hc; eauto.
+  - intros t' m' Hg' Hn. cbn. destruct (Hg1m _ _ Hg') as [[-> ->]|[_ Hg0]].
+    + right. apply in_or_app. right. now left.
+    + destruct (Ht _ _ Hg0 Hn); [now left|right; apply in_or_app; now left].
+  - intros t' m' Hg' Hn. cbn in Hg' |- *. destruct (N.eqb_spec t t') as [<-|Hne].
+    + left. apply in_or_app. right. now left.
+    + rewrite !get_set_other in Hg' by auto. destruct (Ht _ _ Hg' Hn); [left; apply in_or_app; now left|now right].
+  - intros c Hin. cbn in Hin. unfold finished, status. cbn.
+    pose proof (Hq c Hin) as Hf. unfold finished, status in Hf.
+    destruct (N.eqb_spec t (cb_target c)) as [E|Hne]; [rewrite <- E, Em in Hf; discriminate|].
+    now rewrite !get_set_other by auto.
+  - intros t' m' c Hg' Hin. cbn in Hg'. destruct (N.eqb_spec t t') as [<-|Hne].
+    + rewrite get_set_same in Hg'. injection Hg' as <-. cbn in Hin. destruct Hin as [<-|[]]. reflexivity.
+    + rewrite !get_set_other in Hg' by auto. eapply Hc; eauto.
+Qed.
+
+Lemma finish_member_good g t o : Good g -> Good (finish_member g t o).
+Proof.
+  intros Hg. unfold finish_member. destruct (get t (members g)) as [m|] eqn:Em; [|exact Hg].
+  destruct (is_fin m) eqn:Efin.
+  { unfold is_fin in Efin. destruct (m_status m); try discriminate. exact Hg. }
+  set (m1 := {| m_daemon := m_daemon m; m_status := Fin o; m_cbs := [] |}).
+  set (g2 := upd_queue (upd_members g (set t m1 (members g))) (queue g ++ map HCb (m_cbs m))).
+  assert (Hgood2 : Good g2).
+  { destruct Hg as ((Ht & Hq & Hc) & Hcl & He).
+    assert (Hget : forall t' m', get t' (members g2) = Some m' ->
+                                 (t' = t /\ m' = m1) \/ (t' <> t /\ get t' (members g) = Some m')).
+    { intros t' m' H. cbn in H. destruct (N.eqb_spec t t') as [<-|Hne].
+      - rewrite get_set_same in H. injection H as <-. now left.
+      - rewrite get_set_other in H by auto. right. split; auto. }
+    assert (Hfin2 : forall t', finished g t' = true -> finished g2 t' = true).
+    { intros t' Hf. unfold finished, status in *. cbn. destruct (N.eqb_spec t t') as [<-|Hne].
+      - now rewrite get_set_same.
+      - now rewrite get_set_other. }
+    split; [split; [|split]|split].
+    - intros t' m' Hg' Hn. destruct (Hget _ _ Hg') as [[-> ->]|[_ Hg0]]; [discriminate|apply (Ht _ _ Hg0 Hn)].
+    - intros c Hin. cbn in Hin. apply in_app_or in Hin as [Hin|Hin]; [apply Hfin2, (Hq c Hin)|].
+      apply in_map_iff in Hin as (c' & E & Hin). injection E as ->. rewrite (Hc _ _ _ Em Hin).
+      unfold finished, status. cbn. now rewrite get_set_same.
+    - intros t' m' c Hg' Hin. destruct (Hget _ _ Hg') as [[-> ->]|[_ Hg0]]; [destruct Hin|eapply Hc; eauto].
+    - intros Hj t' m' Hg'. destruct (Hget _ _ Hg') as [[-> ->]|[_ Hg0]]; [reflexivity|eapply (Hcl Hj); eauto].
+    - intros c e j. apply He. }
+  assert (Hres : Good (if m_daemon m then g2 else
+            {| members := members g2; pending := pending g2; daemons := daemons g2; doneq := doneq g2;
+               semv := semv g2; joined := joined g2; completed := completed g2; pol := pol g2;
+               mode := mode g2; pc := pc g2; entered := entered g2; granted := granted g2; wake := wake g2;
+               must_cancel := must_cancel g2; jexc := jexc g2; unfinished := unfinished g2;
+               queue := queue g2; log_done := log_done g2 ++ [t]; consumed := consumed g2 |})).
+  { destruct (m_daemon m); [exact Hgood2|]. gupd Hgood2. }
+  unfold is_fin in Efin. destruct (m_status m); try discriminate; exact Hres.
+Qed.
+
+Lemma step_good g l : Good g -> Good (step g l).
+Proof.
+  intros Hg. destruct l as [t d al|t o|t| | |h order]; cbn [step].
+  - apply add_task_good; exact Hg.
+  - apply finish_member_good; exact Hg.
+  - eapply frame_good; [apply cancel_member_frame|exact Hg].
+  - destruct (pc g) eqn:Ep; try exact Hg. destruct (wake g); [exact Hg|]. gupd Hg.
+  - unfold cancel_joiner. destruct (pc g) eqn:Ep; try (destruct (wake g)); try exact Hg; gupd Hg.
+  - destruct (queue g) as [|h0 rest] eqn:Eq; [exact Hg|]. cbv zeta.
+    assert (H1 : Good (upd_queue g rest)).
+    { apply (good_upd _ _ Hg); try reflexivity; [|now left]. intros h' Hh. cbn in Hh. left. rewrite Eq. now right. }
+    destruct h0 as [c|]; [|apply joiner_step_good; exact H1].
+    assert (Hf : finished (upd_queue g rest) (cb_target c) = true).
+    { destruct Hg as ((_ & Hq & _) & _). apply (Hq c). rewrite Eq. now left. }
+    destruct c as [t|t]; cbn [run_cb]; [apply on_done_good; auto|]. cbv zeta.
+    set (g1 := upd_joiner (upd_queue g rest) (pc (upd_queue g rest)) (entered (upd_queue g rest))
+                 (granted (upd_queue g rest)) (wake (upd_queue g rest)) (must_cancel (upd_queue g rest))
+                 (jexc (upd_queue g rest)) (removeN t (unfinished (upd_queue g rest))) (joined (upd_queue g rest))
+                 (completed (upd_queue g rest)) (consumed (upd_queue g rest))).
+    assert (H2 : Good g1) by (gupd H1).
+    destruct (removeN t (unfinished (upd_queue g rest))); [|exact H2].
+    destruct (pc g1); try exact H2; destruct (wake g1); try exact H2; gupd H2.
+Qed.
+
+Theorem reachable_good p m ls : Good (run p m ls).
+Proof.
+  unfold run. assert (H0 : Good (init p m)).
+  { split; [split; [|split]|split].
+    - intros t m0 H. discriminate.
+    - intros c [].
+    - intros t m0 c H. discriminate.
+    - discriminate.
+    - intros c e j H. discriminate. }
+  revert H0. generalize (init p m). induction ls as [|l ls IH]; intros g Hg; cbn [fold_left]; [exact Hg|].
+  apply IH, step_good, Hg.
+Qed.
+
+(* ---------- C09 ---------- *)
+(* When the join has finished - returned, or re-raised the CancelledError that interrupted its
+   wait for the next member - every task ever placed in the group has finished. *)
+Theorem join_complete p m ls c e : pc (run p m ls) = JEnded c e true ->
+  joined (run p m ls) = true /\ AllFin (run p m ls).
+Proof.
+  intros E. destruct (reachable_good p m ls) as (_ & Hcl & He). destruct (He _ _ _ E) as (H1 & _ & _).
+  split; [auto|apply Hcl; auto].
+Qed.
+
+(* The joining task ending in any way but a CancelledError has completed the join. *)
+Theorem join_not_cancelled_complete p m ls e j : pc (run p m ls) = JEnded false e j ->
+  j = true /\ e = true /\ joined (run p m ls) = true /\ AllFin (run p m ls).
+Proof.
+  intros E. destruct (reachable_good p m ls) as (_ & Hcl & He). destruct (He _ _ _ E) as (H1 & H2 & H3).
+  assert (j = true) by auto. subst j. repeat split; auto.
+Qed.
+
+(* Once joined is set, every member has finished whatever happens next, and nothing can be added. *)
+Theorem joined_closed p m ls : joined (run p m ls) = true ->
+  AllFin (run p m ls) /\ forall t d st, add_task (run p m ls) t d st = (run p m ls, false).
+Proof.
+  intros Hj. destruct (reachable_good p m ls) as (_ & Hcl & _). split; [apply Hcl; auto|].
+  intros t d st. unfold add_task. now rewrite probe_refused, Hj.
+Qed.
+
+(* ---------- a generic preservation lemma for the joining coroutine ---------- *)
+Section JoinerPres.
+  Variable P : tg -> Prop.
+  Hypothesis P_joiner : forall g p en gr wk mc je unf jd cm cs,
+    P g -> (jd = joined g \/ jd = true) -> (cm = completed g \/ True) -> P (upd_joiner g p en gr wk mc je unf jd cm cs).
+  Hypothesis P_group : forall g dq sv, P g -> P (upd_group g (pending g) (daemons g) dq sv).
+  Hypothesis P_cancel : forall g ord, P g -> P (cancel_tasks g ord).
+
+  Lemma j_finally_pres g order exc : P g -> P (j_finally g order exc).
+  Proof.
+    intros H. unfold j_finally. cbv zeta.
+    match goal with |- context [match ?x with [] => _ | _ => _ end] => destruct x end.
+    - unfold end_join. apply P_joiner; auto.
+    - apply P_joiner; auto.
+  Qed.
+
+  Lemma j_loop_pres order dq : forall g, P g -> P (j_loop dq g order).
+  Proof.
+    induction dq as [|x dq IH]; intros g H; cbn [j_loop]; cbv zeta.
+    - match goal with |- context [if ?b then _ else _] => destruct b end; [apply P_joiner; auto|].
+      apply j_finally_pres. match goal with |- context [if ?b then _ else _] => destruct b end; auto.
+    - cbn [negb andb]. destruct (semv g =? 0)%nat; [apply P_joiner; auto|].
+      match goal with |- P (if ?b then _ else _) => destruct b end; [apply j_finally_pres|apply IH];
+        apply P_joiner; auto; apply (P_group (upd_group g (pending g) (daemons g) (doneq g) (semv g - 1)));
+        apply P_group; auto.
+  Qed.
+
+  Lemma join_entry_pres g order : P g -> P (join_entry g order).
+  Proof.
+    intros H. unfold join_entry. cbv zeta. cbn [pol upd_joiner].
+    destruct (pol g); [apply j_loop_pres|apply j_loop_pres|apply j_loop_pres|apply j_finally_pres]; apply P_joiner; auto.
+  Qed.
+
+  Lemma joiner_step_pres g order : P g -> P (joiner_step g order).
+  Proof.
+    intros H. unfold joiner_step. cbv zeta.
+    set (g0 := upd_joiner g (pc g) (entered g) (granted g) None false (jexc g) (unfinished g) (joined g)
+                          (completed g) (consumed g)).
+    assert (H0 : P g0) by (apply P_joiner; auto).
+    destruct (pc g0).
+    - match goal with |- context [if ?b then _ else _] => destruct b end; [apply P_joiner; auto|].
+      destruct (mode g0); try (apply join_entry_pres; exact H0).
+      match goal with |- context [match ?x with [] => _ | _ => _ end] => destruct x end; [apply join_entry_pres; exact H0|].
+      apply P_joiner; auto; apply P_cancel; exact H0.
+    - match goal with |- context [if ?b then _ else _] => destruct b end.
+      + apply j_finally_pres. apply P_joiner; auto. destruct (granted g0); [apply P_group|]; exact H0.
+      + match goal with |- context [match ?x with [] => _ | _ => _ end] => destruct x end.
+        * apply j_finally_pres. apply P_joiner; auto.
+        * apply j_loop_pres.
+          match goal with |- P (upd_group ?G _ _ _ _) => apply (P_group G) end.
+          apply P_joiner; auto.
+    - match goal with |- context [if ?b then _ else _] => destruct b end; [apply P_joiner; auto|apply join_entry_pres; exact H0].
+    - match goal with |- context [if ?b then _ else _] => destruct b end; [apply P_joiner; auto|].
+      match goal with |- context [match ?x with [] => _ | _ => _ end] => destruct x end.
+      + unfold end_join. apply P_joiner; auto.
+      + apply P_joiner; auto; apply P_cancel; exact H0.
+    - exact H0.
+  Qed.
+End JoinerPres.
+
+(* ---------- after the join: joined stays set and the set of members is frozen ---------- *)
+Definition keys (g : tg) : list N := map fst (members g).
+
+Lemma set_keys t m l m0 : get t l = Some m0 -> map fst (set t m l) = map fst l.
+Proof.
+  induction l as [|[x mx] l IH]; cbn; [discriminate|].
+  destruct (N.eqb x t); cbn; [reflexivity|]. intros H. now rewrite IH.
+Qed.
+
+Lemma cancel_tasks_keys g ord : keys (cancel_tasks g ord) = keys g /\ joined (cancel_tasks g ord) = joined g.
+Proof.
+  unfold cancel_tasks.
+  assert (F : forall (f : tg -> N -> tg), (forall g t, keys (f g t) = keys g /\ joined (f g t) = joined g) ->
+              forall l g, keys (fold_left f l g) = keys g /\ joined (fold_left f l g) = joined g).
+  { intros f Hf. induction l as [|t l IH]; intros g0; cbn; [auto|]. destruct (IH (f g0 t)) as [-> ->]. apply Hf. }
+  destruct (F register_pop) with (l := ord) (g := fold_left cancel_member ord g) as [-> ->].
+  { intros g0 t. unfold register_pop, keys. destruct (get t (members g0)) eqn:E; auto.
+    destruct (m_status m); cbn; auto; erewrite set_keys; eauto. }
+  apply F. intros g0 t. unfold cancel_member, keys. destruct (get t (members g0)) eqn:E; auto.
+  destruct (m_status m); cbn; auto; erewrite set_keys; eauto.
+Qed.
+
+Lemma after_join_step g l : joined g = true ->
+  joined (step g l) = true /\ keys (step g l) = keys g.
+Proof.
+  intros Hj. destruct l as [t d al|t o|t| | |h order]; cbn [step].
+  - unfold add_task. now rewrite probe_refused, Hj.
+  - unfold finish_member, keys. destruct (get t (members g)) eqn:E; auto.
+    destruct (m_status m); auto; destruct (m_daemon m); cbn; split; auto; erewrite set_keys; eauto.
+  - unfold cancel_member, keys. destruct (get t (members g)) eqn:E; auto.
+    destruct (m_status m); cbn; auto; split; auto; erewrite set_keys; eauto.
+  - destruct (pc g); auto; destruct (wake g); auto.
+  - unfold cancel_joiner. destruct (pc g); auto; destruct (wake g); auto.
+  - destruct (queue g) as [|h0 rest]; auto. cbv zeta. destruct h0 as [[t|t]|].
+    + cbn [run_cb]. destruct (on_done_facts (upd_queue g rest) t) as (E1 & E2 & _). unfold keys. rewrite E1, E2. auto.
+    + cbn [run_cb]. cbv zeta. repeat match goal with |- context [match ?x with _ => _ end] => destruct x end; auto.
+    + apply (joiner_step_pres (fun g' => joined g' = true /\ keys g' = keys g)); auto.
+      * intros g0 p en gr wk mc je unf jd cm cs [H1 H2] [->| ->] _; auto.
+      * intros g0 ord [H1 H2]. destruct (cancel_tasks_keys g0 ord) as [-> ->]. auto.
+Qed.
+
+(* nothing can be added after the join: the set of members never changes again *)
+Theorem no_add_after_join p m ls ls' : joined (run p m ls) = true ->
+  joined (run p m (ls ++ ls')) = true /\ keys (run p m (ls ++ ls')) = keys (run p m ls).
+Proof.
+  unfold run. rewrite fold_left_app. generalize (fold_left step ls (init p m)). intros g Hj.
+  revert g Hj. induction ls' as [|l ls' IH]; intros g Hj; cbn [fold_left]; [auto|].
+  destruct (after_join_step g l Hj) as [H1 H2]. destruct (IH _ H1) as [H3 H4]. split; [auto|congruence].
 Qed.
